@@ -8,7 +8,7 @@ decide stays open, and the check then fails closed (ANALYSIS-ERROR), so the "com
 precondition is verified as a side effect.
 """
 from .poly import Sym
-from .interp import Cmp, Hooks, NotC, Pred
+from .interp import Cmp, Hooks, NotC, Pred, AndC, OrC
 from .poly import Sym
 
 
@@ -92,6 +92,8 @@ class OrderCase(Hooks):
         return None
 
     def decide(self, cond, st):
+        if isinstance(cond, (NotC, AndC, OrC)):
+            return None      # decomposed by the interpreter and asked again per comparison
         if isinstance(cond, Cmp) and isinstance(cond.a, Sym) and isinstance(cond.b, Sym) \
                 and cond.b == Sym.const(0):
             pr = self.find_pair(cond.a)
@@ -142,6 +144,11 @@ class WitnessCase(Hooks):
         if isinstance(cond, NotC):
             inner = self.decide(cond.c, st)
             return None if inner is None else not inner
+        if isinstance(cond, (AndC, OrC)):
+            vals = [self.decide(x, st) for x in cond.items]
+            if any(v is None for v in vals):
+                return None
+            return all(vals) if isinstance(cond, AndC) else any(vals)
         if isinstance(cond, Pred) and cond.name == 'isclose' and len(cond.args) == 2 and all(
                 isinstance(a, Sym) for a in cond.args):
             # math.isclose(a, b) with its defaults rel_tol = 1e-09, abs_tol = 0 (a call that
